@@ -71,7 +71,7 @@ def lty(t: str) -> str:
         return "CR.BenchId." + t[5:]
     if t.startswith("obj:"):
         return {"Id": "CR.BenchId.Id", "SId": "CR.PyC13.SId", "Groups": "CR.BenchId.Groups", "Pps": "CR.BenchId.Pps"}[t[4:]]
-    return {"Str": "Str", "Int": "Int", "Bool": "Bool", "Sc": "CR.PyC13.Sc", "PV": "CR.PyC13.PV", "Char": "Char"}[t]
+    return {"Str": "Str", "Int": "Int", "Bool": "Bool", "Sc": "CR.PyC13.Sc", "PV": "CR.PyC13.PV", "Char": "Char", "Unit": "Unit"}[t]
 
 
 # ------------------------------------------------------------------------------------------------ regex fragment
@@ -202,7 +202,8 @@ class T13(Target):
     """Target with typed parameters.  tparams: [(python name | None, lean name, type tag | raw lean binder type)]"""
 
     def __init__(self, name, file, func, cls=None, tparams=(), ret="Str", tattrs=None, tnames=None, tcalls=None,
-                 monadic=False, setter=False, doc="", finish=None, setters=None, int_total=False, ctor_env=None):
+                 monadic=False, setter=False, doc="", finish=None, setters=None, int_total=False, ctor_env=None,
+                 stop_before=None):
         params = [(p, f"{ln} : {lty(ty) if ty in TYPE_TAGS or ':' in ty else ty}") for p, ln, ty in tparams]
         super().__init__(name, file, func, cls, params=params, ret=ret, monadic=monadic, setter=setter, doc=doc)
         self.tparams = list(tparams)
@@ -214,9 +215,10 @@ class T13(Target):
         self.int_total = int_total       # `int(s)` on regex digit groups
         self.ctor_env = ctor_env or {}   # constructor calls: class name -> (lean fn, [(param, type)], ret type, monadic)
         self.ret_self = False
+        self.stop_before = stop_before   # translate the statements before the first one that mentions this name
 
 
-TYPE_TAGS = {"Str", "Int", "Bool", "Sc", "PV", "Char"}
+TYPE_TAGS = {"Str", "Int", "Bool", "Sc", "PV", "Char", "Unit"}
 
 
 class TrS(Tr):
@@ -343,6 +345,8 @@ class TrS(Tr):
         if isinstance(n, (ast.Name, ast.Attribute)):
             k = self.narrow_key(n)
             if k is not None and k in env:
+                if env[k][1] == "list:?":
+                    raise Unsupported("empty list of unknown element type")
                 return env[k]
             r = self.lookup(n, env)
             if r is not None:
@@ -853,6 +857,40 @@ class TrS(Tr):
             return f"{pad}CR.Py.assert {self.paren(self.tbool(s.test, env))}\n" + self.tblock(rest, env, ind)
         if isinstance(s, ast.AnnAssign) and s.value is not None:
             s = ast.Assign(targets=[s.target], value=s.value)
+        if isinstance(s, ast.Assign) and len(s.targets) == 1 and isinstance(s.targets[0], ast.Name) \
+                and isinstance(s.value, ast.List) and not s.value.elts:
+            env = dict(env)                      # `acc = []`: the element type is fixed by the loop that fills it
+            self.forget(env, s.targets[0].id)
+            env[s.targets[0].id] = ("[]", "list:?")
+            return self.tblock(rest, env, ind)
+        if isinstance(s, ast.For) and isinstance(s.target, ast.Name) and not s.orelse and len(s.body) == 1:
+            # `for x in xs: [if c:] acc.append(e)`  ==  acc += [e for x in xs if c]
+            b, ifs = s.body[0], []
+            while isinstance(b, ast.If) and not b.orelse and len(b.body) == 1:
+                ifs.append(b.test)
+                b = b.body[0]
+            if isinstance(b, ast.Expr) and isinstance(b.value, ast.Call) and isinstance(b.value.func, ast.Attribute) \
+                    and b.value.func.attr == "append" and isinstance(b.value.func.value, ast.Name) \
+                    and len(b.value.args) == 1 and not b.value.keywords and b.value.func.value.id in env \
+                    and env[b.value.func.value.id][1].startswith("list:"):
+                acc = b.value.func.value.id
+                if any(isinstance(x, ast.Name) and x.id == acc for e in [b.value.args[0], s.iter] + ifs for x in ast.walk(e)):
+                    raise Unsupported("loop reads its own accumulator")
+                comp = ast.ListComp(elt=b.value.args[0],
+                                    generators=[ast.comprehension(target=s.target, iter=s.iter, ifs=ifs, is_async=0)])
+                v, ty = self.comprehension(comp, env)
+                prev, pty = env[acc]
+                if pty == "list:?":
+                    txt = v
+                elif pty == ty:
+                    txt = f"({prev} ++ {v})"
+                else:
+                    raise Unsupported("accumulator element type")
+                env = dict(env)
+                x = self.ident(acc)
+                env[acc] = (x, ty)
+                return f"{pad}let {x} : {lty(ty)} := {txt}\n" + self.tblock(rest, env, ind)
+            raise Unsupported("for loop shape")
         if isinstance(s, ast.Assign) and len(s.targets) == 1:
             tg = s.targets[0]
             if isinstance(tg, ast.Name):
@@ -955,6 +993,13 @@ class TrS(Tr):
                 raise Unsupported(f"{f[1]} not assigned on this path")
             v, ty = env[f[1]]
             return f"return {self.co(v, ty, self.t.rty)}"
+        if f[0] == "tuple":
+            parts = []
+            for nm in f[1]:
+                if nm not in env:
+                    raise Unsupported(f"{nm} not assigned on this path")
+                parts.append(env[nm])
+            return "return " + self.co("(" + ", ".join(p[0] for p in parts) + ")", "tuple:" + "|".join(p[1] for p in parts), self.t.rty)
         if f[0] == "obj":
             fields = []
             for lean_field, attr, fty in f[1]:
@@ -975,7 +1020,15 @@ class TrS(Tr):
         declared = [p for p, _, _ in t.tparams if p is not None and p not in ("self", "cls") and not p.startswith("self.")]
         if pynames != declared:
             raise Unsupported(f"signature changed: {pynames}")
-        body = self.tblock(list(fn.body), env, 1)
+        stmts = list(fn.body)
+        if t.stop_before is not None:
+            for i, st in enumerate(stmts):
+                if any(isinstance(x, ast.Name) and x.id == t.stop_before for x in ast.walk(st)):
+                    stmts = stmts[:i]
+                    break
+            else:
+                raise Unsupported(f"no statement mentions {t.stop_before}")
+        body = self.tblock(stmts, env, 1)
         binders = " ".join(f"({p})" for _, p in t.params)
         if t.monadic:
             head = f"def {t.name} {binders} : Res ({lty(t.rty)}) := do\n{body}\n"
@@ -1057,6 +1110,13 @@ def fn_targets():
         tcalls={"ScenarioID.from_benchmark_id": ("ScenarioID_from_benchmark_id cs", ["Str", "Str"], "obj:SId", True)})
     add("Reader_parse_vehicle_id", SOL_FILE, "_parse_vehicle_id", "CommonRoadSolutionReader",
         [("vehicle_id", "vehicle_id", "Str")], "tuple:enum:VModel|enum:VType", monadic=True)
+    add("Reader_parse_pps_ids", SOL_FILE, "_parse_planning_problem_solution", "CommonRoadSolutionReader",
+        [("vehicle_id", "vehicle_id", "Str"), ("cost_id", "cost_id", "Str"), ("trajectory_node", "trajectory_node", "Unit")],
+        "tuple:enum:VModel|enum:VType|enum:Cost", monadic=True, stop_before="trajectory_node",
+        finish=("tuple", ["vehicle_model", "vehicle_type", "cost_function"]),
+        tcalls={"cls._parse_vehicle_id": ("Reader_parse_vehicle_id", ["Str"], "tuple:enum:VModel|enum:VType", True),
+                "CommonRoadSolutionReader._parse_vehicle_id": ("Reader_parse_vehicle_id", ["Str"], "tuple:enum:VModel|enum:VType", True)},
+        doc="the statements before the trajectory node is read: (vehicle model, vehicle type, cost function)")
     return ts
 
 
